@@ -367,6 +367,12 @@ class Facts(object):
         p = pol != flip
         if (key, not p) in self.items:
             return None
+        # `x` truthy and `x is None` cannot both hold: such a path is infeasible
+        if p:
+            if key.endswith(' is None') and (key[:-8], True) in self.items:
+                return None
+            if (key + ' is None', True) in self.items:
+                return None
         return Facts(self.items | frozenset([(key, p)]))
 
     def kill(self, killed, texts_cache={}):
@@ -453,6 +459,12 @@ class Flow(object):
                 if node.kind == 'stmt' and isinstance(a, ast.Assign) and len(a.targets) == 1 and isinstance(a.targets[0], ast.Name) \
                         and isinstance(a.value, ast.Constant) and isinstance(a.value.value, bool):
                     f_ = facts2.assume(a.targets[0], a.value.value)
+                    if f_ is not None:
+                        facts2 = f_
+                # `name = None` is a fact about `name is None`
+                if node.kind == 'stmt' and isinstance(a, ast.Assign) and len(a.targets) == 1 and isinstance(a.targets[0], ast.Name) \
+                        and isinstance(a.value, ast.Constant) and a.value.value is None:
+                    f_ = facts2.assume(ast.Compare(left=a.targets[0], ops=[ast.Is()], comparators=[ast.Constant(value=None)]), True)
                     if f_ is not None:
                         facts2 = f_
             else:
